@@ -224,6 +224,10 @@ def run_check(prop: str, tier: str, extra: Any = None) -> int:
     for kf in common.known_findings():
         if kf["property"] == prop and kf.get("regression_scenario"):
             scns.append(dict(kf["regression_scenario"], family="ledger:" + kf["id"]))
+    # entry points: the bare loop, taskiq.api.run_scheduler_task, and the command line (SchedulerArgs.from_cli -> run_scheduler)
+    for i, scn in enumerate(scns):
+        if not str(scn.get("family", "")).startswith("ledger:"):
+            scn["cfg"].setdefault("via", ("loop", "api", "cli")[i % 3])
     traces = mbt.drive("engine.sch_check", "_drive_one", scns)
     verdicts = mbt.observe(traces, "ObsSched", shards=8 if q else 16)
     viol_n = 0
